@@ -677,7 +677,7 @@ func partD(kKey, kCust []byte) {
 	}
 	// 157 and 325: bytepad(encode_string("KMAC")||encode_string(S)) exactly fills blocks
 	custLens = append(custLens, 156, 157, 158, 168, 200, 325)
-	bsizes := []int{0, 1, 31, 32, 33, 167, 168, 169, 336, 337, 1000}
+	bsizes := []int{0, 1, 32, 167, 168, 169, 1000}
 	if run.Thorough() {
 		bsizes = []int{0, 1, 2, 15, 16, 31, 32, 33, 48, 64, 167, 168, 169, 335, 336, 337, 504, 505, 999, 1000}
 	}
